@@ -471,8 +471,11 @@ class PreparedStatementPlanner():
             # prepare select
             return self.prepare_select(query)
         if isinstance(query, (ast.Union, ast.Intersect, ast.Except)):
-            # get column definition only from select
-            return self.prepare_select(query.left)
+            # get column definition only from the first select (the left operand of a chain is a set operation)
+            first = query.left
+            while isinstance(first, (ast.Union, ast.Intersect, ast.Except)):
+                first = first.left
+            return self.prepare_select(first)
         if isinstance(query, ast.Insert):
             # return self.prepare_insert(query)
             # TODO do we need columns?
